@@ -146,7 +146,7 @@ def ownership_fault(c):
     launcher = ("strace -f -qq -o %s -e trace=mkdir,mkdirat,chmod,fchmod,fchmodat,%s,openat,creat -e inject=%s:error=EPERM %s"
                 % (sl, calls, calls, exe))
     try:
-        p = subprocess.run(["unshare", "-n", "sh", "-c", rig.NS_SETUP + " && exec " + launcher], env=env, cwd=d,
+        p = subprocess.run(rig.NS + ["sh", "-c", rig.NS_SETUP_PRIVATE + " && exec " + launcher], env=env, cwd=d,
                            stdout=subprocess.PIPE, stderr=subprocess.STDOUT, timeout=180, text=True, errors="replace")
     except subprocess.TimeoutExpired:
         raise util.ToolError("chown-fault run timed out")
@@ -271,7 +271,7 @@ def crash_leftovers(c, needles):
         launcher = ("strace -f -qq -o %s -e trace=rename,renameat,renameat2 -e inject=rename,renameat,renameat2:signal=SIGKILL:when=%d %s"
                     % (sl, k, exe))
         try:
-            p = subprocess.run(["unshare", "-n", "sh", "-c", rig.NS_SETUP + " && exec " + launcher], env=env, cwd=d,
+            p = subprocess.run(rig.NS + ["sh", "-c", rig.NS_SETUP_PRIVATE + " && exec " + launcher], env=env, cwd=d,
                                stdout=subprocess.PIPE, stderr=subprocess.STDOUT, timeout=600, text=True, errors="replace")
         except subprocess.TimeoutExpired:
             raise util.ToolError("kill-injection run %s timed out" % name)
